@@ -892,14 +892,12 @@ func (stmt *CreateIndexStmt) execAt(ctx context.Context, tx *SQLTx, params map[s
 	if stmt.unique && table.primaryIndex != nil {
 		// check table is empty
 		pkPrefix := MapKey(tx.sqlPrefix(), MappedPrefix, EncodeID(table.id), EncodeID(table.primaryIndex.id))
-		_, _, err := tx.getWithPrefix(ctx, pkPrefix, nil)
-		if errors.Is(err, store.ErrIndexNotFound) {
-			return nil, ErrTableDoesNotExist
-		}
-		if err == nil {
-			return nil, ErrLimitedIndexCreation
-		} else if !errors.Is(err, store.ErrKeyNotFound) {
+		populated, err := tx.existsLiveEntryWithPrefix(ctx, pkPrefix)
+		if err != nil {
 			return nil, err
+		}
+		if populated {
+			return nil, ErrLimitedIndexCreation
 		}
 	}
 
@@ -1770,11 +1768,12 @@ func (tx *SQLTx) doUpsert(ctx context.Context, pkEncVals []byte, valuesByColID m
 
 		// no other equivalent entry should be already indexed
 		if index.IsUnique() {
-			_, valRef, err := tx.getWithPrefix(ctx, smkey, nil)
-			if err == nil && (valRef.KVMetadata() == nil || !valRef.KVMetadata().Deleted()) {
-				return store.ErrKeyAlreadyExists
-			} else if !errors.Is(err, store.ErrKeyNotFound) {
+			exists, err := tx.existsLiveEntryWithPrefix(ctx, smkey)
+			if err != nil {
 				return err
+			}
+			if exists {
+				return store.ErrKeyAlreadyExists
 			}
 		}
 
@@ -1787,6 +1786,33 @@ func (tx *SQLTx) doUpsert(ctx context.Context, pkEncVals []byte, valuesByColID m
 	tx.updatedRows++
 
 	return nil
+}
+
+// existsLiveEntryWithPrefix reports whether some entry with the given prefix is neither deleted nor
+// expired. A single prefix lookup is not enough: it only looks at the first entry with the prefix and
+// an older, deleted entry (a row that was deleted or whose indexed value changed) may sort first.
+func (tx *SQLTx) existsLiveEntryWithPrefix(ctx context.Context, prefix []byte) (bool, error) {
+	r, err := tx.newKeyReader(store.KeyReaderSpec{
+		Prefix:  prefix,
+		Filters: []store.FilterFn{store.IgnoreExpired, store.IgnoreDeleted},
+	})
+	if errors.Is(err, store.ErrIndexNotFound) {
+		return false, nil
+	}
+	if err != nil {
+		return false, err
+	}
+	defer r.Close()
+
+	_, _, err = r.Read(ctx)
+	if errors.Is(err, store.ErrNoMoreEntries) {
+		return false, nil
+	}
+	if err != nil {
+		return false, err
+	}
+
+	return true, nil
 }
 
 func encodedKey(index *Index, valuesByColID map[uint32]TypedValue) ([]byte, error) {
